@@ -305,16 +305,22 @@ class Builder(object):
             if not feature and name != "aalt":
                 warnings.warn("%s: Feature %s has not been defined" % (location, name))
                 continue
+            # The language systems are kept in a set: visit the lookups in the order
+            # in which the file defines them, not in the order of that set.
+            feature_lookups = []
             for script, lang, feature, lookups in feature:
                 for lookuplist in lookups:
                     if not isinstance(lookuplist, list):
                         lookuplist = [lookuplist]
                     for lookup in lookuplist:
-                        for glyph, alts in lookup.getAlternateGlyphs().items():
-                            alts_for_glyph = alternates.setdefault(glyph, [])
-                            alts_for_glyph.extend(
-                                g for g in alts if g not in alts_for_glyph
-                            )
+                        if not any(lookup is seen for seen in feature_lookups):
+                            feature_lookups.append(lookup)
+            order = {id(lookup): i for i, lookup in enumerate(self.lookups_)}
+            feature_lookups.sort(key=lambda lookup: order.get(id(lookup), len(order)))
+            for lookup in feature_lookups:
+                for glyph, alts in lookup.getAlternateGlyphs().items():
+                    alts_for_glyph = alternates.setdefault(glyph, [])
+                    alts_for_glyph.extend(g for g in alts if g not in alts_for_glyph)
         single = {
             glyph: repl[0] for glyph, repl in alternates.items() if len(repl) == 1
         }
